@@ -2,6 +2,8 @@
 import VDriver.Util
 import VModel.Limits
 import VModel.Vertable
+import VModel.EventParse
+import VModel.EventSpec
 import VGen.Versions
 import VGen.C17
 namespace V.Driver.LimitsOps
@@ -22,6 +24,50 @@ def shapeOf (s : Sizes) : String :=
     (if s.room.cp > 255 then ["room.cp"] else if s.room.bytes > 255 then ["room.b"] else [])
   if parts.isEmpty then "within" else "+".intercalate parts
 
+/-- the three classes, for the event-constructor model -/
+def classOfParse : Except Err EventParse.PDU → String
+  | .ok _ => "ok"
+  | .error (.other w) =>
+    if w.startsWith "unmodelled" then "skip:" ++ w
+    else if w == "toolarge-persistable" then "persistable" else "refused"
+  | .error _ => "refused"
+
+/-- `limits.receipt_text <ver> <text>`: receipt of an arbitrary event text.  Model: the constructor model
+    (`VModel.EventParse.parseUntrusted`).  Specification, from the property's sentence: the limits apply to the
+    members `type`, `state_key`, `sender`, `room_id` OF THE EVENT'S JSON (exact names) and to its canonical length after
+    the receiver's stripping; texts that do not denote one event, or that carry a case variant of an event-struct
+    member name, are refused (`EventSpec.mustRefuse`). -/
+def receiptText (ver : String) (t : Bytes) : String :=
+  let verB := strBytes ver
+  match Json.parse t with
+  | none => "refused\tunspecified:not JSON"
+  | some p =>
+    if !p.wellFormed then "skip:ill-formed unicode" else
+    let m := classOfParse (EventParse.parseUntrusted Hash.sha256 verB t)
+    let sp : String :=
+      if (EventSpec.mustRefuse p.toJVal).isSome then "refused" else
+      match p.toJVal, Vertable.Spec.traitsOf ver, Redact.rowOf verB with
+      | .obj o0, some tr, some row =>
+        let o := o0.filter (fun kv => !(EventSpec.strippedKeys row.eventFormat).contains kv.1)
+        let str (k : Bytes) : Option Bytes := match EventSpec.get o k with
+          | some (.str s) => some s
+          | none => some []
+          | _ => none
+        let sk : Option (Option Bytes) := match EventSpec.get o (strBytes "state_key") with
+          | some (.str s) => some (some s)
+          | none => some none
+          | _ => none
+        match str (strBytes "type"), sk, str (strBytes "sender"), str (strBytes "room_id") with
+        | some ty, some skv, some se, some ro =>
+          if !(isValidUTF8 ty && isValidUTF8 (skv.getD []) && isValidUTF8 se && isValidUTF8 ro) then "unspecified:field is not valid UTF-8" else
+          match Spec.verdict tr.domainlessRoomIDs (ver == "org.matrix.msc4014") (sizesOf (Json.encodeCanon (.obj o)).length ty skv se ro) with
+          | none => "unspecified:malformed-sender-or-room-id"
+          | some .ok => "unspecified:within the limits (acceptance depends on everything else)"
+          | some v => v.coarse
+        | _, _, _, _ => "unspecified:a limited field is not a string"
+      | _, _, _ => "unspecified:not an object / unknown version"
+    m ++ "\t" ++ sp
+
 /-- ops: trusted | untrusted | build  <ver> <shape> <jsonlen> <type> <state_key or ~> <sender> <room_id>
     (fields hex; the three ops differ only in the entry point the harness drives): the class the property
     distinguishes, ok | refused | persistable, from the model and from the specification;
@@ -30,6 +76,12 @@ def shapeOf (s : Sizes) : String :=
     untrusted_badhash[_fine] <ver> <shape> <jsonlen> <redactedlen> <type> <state_key or ~> <sender> <room_id>:
     receipt of an event whose content hash does not match -/
 def handle (op : String) (args : Array String) : Option String :=
+  if op == "receipt_text" then
+    (match args.toList with
+     | [ver, th] => match unhex th with
+       | some t => some (receiptText ver t)
+       | none => some "bad-op"
+     | _ => some "bad-op") else
   let fine := op.endsWith "_fine"
   let base := if fine then (op.dropEnd 5).toString else op
   if base != "trusted" && base != "untrusted" && base != "build" && base != "untrusted_badhash" then none else
@@ -61,6 +113,8 @@ def handle (op : String) (args : Array String) : Option String :=
       else
         let s := sizesOf n ty sk se ro
         if shapeOf s != shape then some "bad-shape-label" else
+        if base == "build" && s.create && p.roomCheck == .prefixOnly && !ro.isEmpty then
+          some "skip:Build refuses any room ID on a create event of these room versions (an API contract, not a size decision)" else
         let v := if base == "untrusted" then verdictUntrusted p s n else verdict p s
         if fine then some v.show else
         let m := v.coarse
